@@ -313,9 +313,11 @@ func convertPeerAuthentication(rootNamespace string, cfg, nsCfg, rootCfg *securi
 				continue
 			}
 
-			if mode == v1beta1.PeerAuthentication_MutualTLS_UNSET && ((nsCfg != nil && !isMtlsModeStrict(nsCfg.Spec.Mtls)) ||
-				(nsCfg == nil && rootCfg != nil && !isMtlsModeStrict(rootCfg.Spec.Mtls)) ||
-				(nsCfg == nil && rootCfg == nil)) {
+			// A namespace policy whose mode is unset inherits from the mesh policy, like a missing one
+			nsUnset := nsCfg == nil || isMtlsModeUnset(nsCfg.Spec.Mtls)
+			if mode == v1beta1.PeerAuthentication_MutualTLS_UNSET && ((!nsUnset && !isMtlsModeStrict(nsCfg.Spec.Mtls)) ||
+				(nsUnset && rootCfg != nil && !isMtlsModeStrict(rootCfg.Spec.Mtls)) ||
+				(nsUnset && rootCfg == nil)) {
 				// we don't care; log and continue
 				log.Debugf("skipping port %d/%s for PeerAuthentication %s/%s for ambient since it's not STRICT and the effective policy is not STRICT",
 					port, portMtlsMode, cfg.Namespace, cfg.Name)
